@@ -1,6 +1,7 @@
 package props
 
 import (
+	"bytes"
 	"fmt"
 
 	"gitlab.com/gomidi/midi/v2"
@@ -230,7 +231,7 @@ func init() {
 			"derived views (GetNoteStart, GetNoteEnd, GetChannel, and the wrappers GetMetaKey, GetMetaMeter) are checked for agreement with their base, not for exclusivity",
 			"sampled FF tt strings keep the embedded length VLQ at most 3 bytes: String() allocates the declared text length and the property is about panics, not allocation",
 		},
-		Require: []string{"strings_midi", "strings_smf", "meta_strings", "strings_accepted_by_an_accessor", "cat:midi:channel", "cat:midi:syscommon", "cat:midi:realtime", "cat:midi:sysex", "cat:midi:unknown", "cat:smf:meta"},
+		Require: []string{"strings_midi", "strings_smf", "meta_strings", "strings_accepted_by_an_accessor", "cat:midi:channel", "cat:midi:syscommon", "cat:midi:realtime", "cat:midi:sysex", "cat:midi:unknown", "cat:smf:meta", "patterned_long_strings"},
 		Run:     runC08,
 	})
 }
@@ -351,6 +352,47 @@ func runC08(c *mon.Ctx) {
 		}
 	})
 
+	// patterned long strings: runs of one byte value (and two-byte alternations) as payload of every
+	// text-like meta type with a consistent length field, and as raw strings, at lengths around powers of two
+	c.Each("patterned-long", 256, func(i int64, r *mon.Rand) {
+		fill := byte(i)
+		alt := byte(r.Pick(0x00, 0x80, 0xBF, 0xC2, 0xE2, 0xEF, 0xFF, 0x25, 0x5C))
+		for _, n := range []int{4, 7, 100, 127, 128, 255, 256, 257, 258, 300, 511, 512, 513, 1023, 1024, 1025, 4095, 4096, 4097} {
+			for pat := 0; pat < 2; pat++ {
+				p := make([]byte, n)
+				for j := range p {
+					p[j] = fill
+					if pat == 1 && j%2 == 1 {
+						p[j] = alt
+					}
+				}
+				if n > 300 && !bytes.Contains([]byte{0x00, 0x20, 0x25, 0x41, 0x7F, 0x80, 0xBF, 0xC2, 0xE2, 0xEF, 0xF0, 0xF7, 0xFF}, []byte{fill}) {
+					continue // the longest patterns only for a subset of fill bytes
+				}
+				for _, typ := range []byte{0x01, 0x02, 0x03, 0x04, 0x05, 0x06, 0x07, 0x08, 0x09, 0x7F, 0x51, 0x58, 0x59, 0x54, 0x00, 0x20, 0x21, 0x2F, 0x60} {
+					if n > 300 && typ != 0x01 && typ != 0x05 && typ != 0x7F {
+						continue
+					}
+					m := []byte{0xFF, typ}
+					m = appendVLQ(m, uint32(n))
+					m = append(m, p...)
+					c.Count("cat:smf:"+classifySMF(c, m), 1)
+					c.Count("strings_smf", 1)
+					c.Count("patterned_long_strings", 1)
+				}
+				raw := append([]byte{0xF0}, p...)
+				c.Count("cat:midi:"+classifyMidi(c, raw), 1)
+				c.Count("cat:smf:"+classifySMF(c, raw), 1)
+				c.Count("cat:midi:"+classifyMidi(c, p), 1)
+				c.Count("cat:smf:"+classifySMF(c, p), 1)
+				c.Count("strings_midi", 2)
+				c.Count("strings_smf", 2)
+			}
+		}
+		c.Enumerated(19 * 2 * 14)
+		c.Eval(19*2*14 - 1)
+	})
+
 	// every meta constructor output and a few reader-shaped messages are classified too
 	c.Each("constructed", 1, func(_ int64, r *mon.Rand) {
 		for _, m := range constructedSMFMessages(r) {
@@ -363,6 +405,19 @@ func runC08(c *mon.Ctx) {
 }
 
 // constructedSMFMessages returns the output of every Meta* constructor on a spread of arguments.
+func appendVLQ(b []byte, n uint32) []byte {
+	var tmp [5]byte
+	i := 4
+	tmp[i] = byte(n & 0x7F)
+	n >>= 7
+	for n > 0 {
+		i--
+		tmp[i] = byte(n&0x7F) | 0x80
+		n >>= 7
+	}
+	return append(b, tmp[i:]...)
+}
+
 func constructedSMFMessages(r *mon.Rand) (out [][]byte) {
 	add := func(m smf.Message) { out = append(out, m) }
 	for _, n := range []int{0, 1, 2, 127, 128, 129, 300, 16383, 16384} {
